@@ -126,6 +126,26 @@ CHECKS = {
              "oracle: bounds, move, volume tolerance bound, convergence to x* ~ sqrt(c).",
         ref="§5 C17", technique="Lean 4 proof (clip lemmas, induction over iterations and bisection passes) + Float-model correspondence + oracle",
         note=NOTE_COMMON + "PARTIAL: 'volume equals maxvol to bisection tolerance' needs a modulus of continuity (oc_volume_tolerance_partial takes it as hypothesis); fixed-point convergence is observed only."),
+    "C07": dict(
+        text="Lean theorems for every size, every number of rhs columns, any commutative ring and any exact inner solver (contract A*solve B = B, A^T*solveT B = B, satisfiable for every non-singular matrix): "
+             "LinSolve returns X with A X = B (and rejects real-sparse + complex rhs), Inverse, SystemOfEquations (A x = b, x[p] = xp, b[f] = bf for every partition), StaticCondensation = Schur complement and reproduces the main-dof response; "
+             "adjoint theorems in linearised-constraint form for LinSolve (+ exact finite identity), Inverse, SystemOfEquations (both seeds), StaticCondensation. Exact Q(i) model vs the real modules (outputs and sensitivities) over matrix classes, "
+             "storage formats, solver overrides, all partitions of small index sets; defining-equation oracle on every real output.",
+        ref="§5 C07", technique="Lean 4 proof (matrix algebra under the inner-solver contract) + exact-model correspondence + defining-equation oracle",
+        note=NOTE_COMMON + "Class detection, auto_determine_solver, LDAWrapper and the initial guess are abstracted into the Solver contract here (they are C05/C06); the implicit-function step from the linearised identities to 'is the derivative' is not formalised."),
+    "C11": dict(
+        text="Lean theorems under the eigen-solver contract (the library returns pairs with A q = lambda B q): scaling and permuting keep eigenpairs, q^T B q = 1 after normalisation, output order = sorting function's order, mean entry >= 0 "
+             "(ordered field), dense path complete, the operator handed to ARPACK is (A - sigma B)^-1 with the coded defaults; Lee's bordered adjoint identity per mode (partial) and the sparse eigenvalue formula (symmetric pencils). "
+             "The harness captures the RAW library eigenpairs (wrapping scipy eigh/eig/eigsh/eigs), feeds them to the model and compares the module's outputs and sensitivities; residual / normalisation / order / sign / closest-to-sigma oracles.",
+        ref="§5 C11", technique="Lean 4 proof of the authored post-processing under an explicit eigen-solver contract + correspondence on captured raw eigenpairs + residual oracle",
+        note=NOTE_COMMON + "PARTIAL by nature: that LAPACK/ARPACK return genuine eigenpairs closest to the shift is an external contract checked numerically; eig_dense_adjoint_partial is per mode without the implicit-function step; sparse eigenvector sensitivities are not compared with a model."),
+    "C19": dict(
+        text="Lean theorems on a model of finite_difference over the C02 program model (any scalar incl. complex pairs): every entry not written by the block is restored exactly, no sensitivity is left on any examined signal, "
+             "each reported pair comes from one perturbation, the analytical value is the back-propagated sensitivity entry for the seed used, calls only for non-skipped entries with the configured step, pre/slice split sound; "
+             "numerical value = true derivative + h*c for quadratic expansions (exact for affine modules), hence wrong sensitivities give non-matching and right ones matching pairs. Exact correspondence (dyadic data, dx = 2^-k) of the test_fn tuples "
+             "and all signal states/sensitivities, incl. sparse-matrix inputs and outputs, slices, complex inputs; independent rational oracle for analytical and numerical values.",
+        ref="§5 C19", technique="Lean 4 proof (frame/loop lemmas over the network model) + exact correspondence + rational-arithmetic oracle; two OPEN known findings",
+        note=NOTE_COMMON + "PARTIAL: the O(dx) claim for general smooth modules (Taylor remainder) is not formalised; 'exactly one call per non-skipped entry' is oracle-checked. OPEN FINDINGS: default inputs containing a slice of an internal signal; fromsig inside a nested network."),
 }
 
 NOT_APPLICABLE = {
